@@ -23,7 +23,8 @@ Proof. split; unfold keeps; intros; congruence. Qed.
   next_line arrays_create maybe_create_default_array arrays_get arrays_set rng_rnd
   push_output warn maybe_warn_undeclared_array
   expect_number accept_as
-  rewind_program_and_await_input break_at_current_location return_to_idle_state : prims.
+  rewind_program_and_await_input break_at_current_location return_to_idle_state
+  is_else_of_then_clause : prims.
 
 (* set_numbered_line = store_set, then runtime resets *)
 Definition set_numbered_tail : M unit :=
@@ -201,7 +202,19 @@ Section RuntimeFrame.
       apply IH.
     Qed.
 
-    Ltac leafE := first [ apply keeps_bind_arguments | leaf4 ].
+    Lemma keeps_call_body : mrel (keeps f) (call_body rec).
+    Proof.
+      intros s. unfold call_body. pose proof (Hrec s) as H1.
+      destruct (rec s) as [[v|e l|p| |] s1]; cbn [snd] in *; try exact H1.
+      - pose proof (keeps_pop_fn s1) as H2.
+        destruct (pop_function_call s1) as [[u|e l|p| |] s2]; cbn [snd] in *;
+          unfold keeps in *; congruence.
+      - pose proof (keeps_pop_fn s1) as H2.
+        destruct (pop_function_call s1) as [[u|e2 l2|p| |] s2]; cbn [snd] in *;
+          unfold keeps in *; congruence.
+    Qed.
+
+    Ltac leafE := first [ apply keeps_bind_arguments | apply keeps_call_body | leaf4 ].
     Ltac walkE := mrel_walk PO leafE.
 
     Lemma keeps_array_index : mrel (keeps f) (evaluate_array_index fuel rec).
@@ -234,16 +247,18 @@ Section RuntimeFrame.
     Qed.
   End Expr.
 
-  Lemma keeps_evaluate_expression fuel : mrel (keeps f) (evaluate_expression fuel).
+  Lemma keeps_evaluate_expression fuel : forall n, mrel (keeps f) (evaluate_expression fuel n).
   Proof.
-    induction fuel as [|n IH]; cbn [evaluate_expression].
+    induction fuel as [|k IH]; intros n; cbn [evaluate_expression].
     - apply (mrel_out_of_fuel _ PO).
-    - apply keeps_logical_or; exact IH.
+    - destruct (Nat.eqb n max_nesting); [apply (mrel_fail _ PO)|].
+      apply keeps_logical_or; apply IH.
   Qed.
 
   (* ---- statements ---- *)
   Section Stmt.
     Variable fuel : nat.
+    Variable nest : nat.
     Variable rec : M unit.
     Hypothesis Hrec : mrel (keeps f) rec.
 
@@ -254,10 +269,10 @@ Section RuntimeFrame.
             | leaf4 ].
     Ltac walk5 := mrel_walk PO leaf5.
 
-    Lemma keeps_optional_index : mrel (keeps f) (parse_optional_array_index fuel).
+    Lemma keeps_optional_index : mrel (keeps f) (parse_optional_array_index fuel nest).
     Proof. unfold parse_optional_array_index, expr; walk5. Qed.
 
-    Lemma keeps_parse_lvalue : mrel (keeps f) (parse_lvalue fuel).
+    Lemma keeps_parse_lvalue : mrel (keeps f) (parse_lvalue fuel nest).
     Proof. unfold parse_lvalue; mrel_walk PO ltac:(first [apply keeps_optional_index | leaf5]). Qed.
 
     Lemma keeps_assign lv v : mrel (keeps f) (assign_value lv v).
@@ -281,34 +296,34 @@ Section RuntimeFrame.
     Lemma keeps_stmt_or_goto : mrel (keeps f) (statement_or_goto_line_number rec).
     Proof. unfold statement_or_goto_line_number; mrel_walk PO ltac:(first [apply keeps_goto_stmt | leaf6]). Qed.
 
-    Lemma keeps_if : mrel (keeps f) (evaluate_if_statement fuel rec).
+    Lemma keeps_if : mrel (keeps f) (evaluate_if_statement fuel nest rec).
     Proof. unfold evaluate_if_statement, expr; mrel_walk PO ltac:(first [apply keeps_stmt_or_goto | leaf6]). Qed.
 
-    Lemma keeps_assignment sym : mrel (keeps f) (evaluate_assignment_statement fuel sym).
+    Lemma keeps_assignment sym : mrel (keeps f) (evaluate_assignment_statement fuel nest sym).
     Proof. unfold evaluate_assignment_statement, expr; walk6. Qed.
 
-    Lemma keeps_let : mrel (keeps f) (evaluate_let_statement fuel).
+    Lemma keeps_let : mrel (keeps f) (evaluate_let_statement fuel nest).
     Proof. unfold evaluate_let_statement; mrel_walk PO ltac:(first [apply keeps_assignment | leaf6]). Qed.
 
-    Lemma keeps_read : mrel (keeps f) (evaluate_read_statement fuel).
+    Lemma keeps_read : mrel (keeps f) (evaluate_read_statement fuel nest).
     Proof. unfold evaluate_read_statement; walk6. Qed.
 
     Lemma keeps_take_input : mrel (keeps f) take_input.
     Proof. unfold take_input; walk6. Qed.
 
-    Lemma keeps_input : mrel (keeps f) (evaluate_input_statement fuel).
+    Lemma keeps_input : mrel (keeps f) (evaluate_input_statement fuel nest).
     Proof.
       unfold evaluate_input_statement;
         mrel_walk PO ltac:(first [apply keeps_take_input | apply keeps_await | leaf6]).
     Qed.
 
-    Lemma keeps_dim : mrel (keeps f) (evaluate_dim_statement fuel).
+    Lemma keeps_dim : mrel (keeps f) (evaluate_dim_statement fuel nest).
     Proof. unfold evaluate_dim_statement; walk6. Qed.
 
-    Lemma keeps_print : mrel (keeps f) (evaluate_print_statement fuel).
+    Lemma keeps_print : mrel (keeps f) (evaluate_print_statement fuel nest).
     Proof. unfold evaluate_print_statement, expr; walk6. Qed.
 
-    Lemma keeps_for : mrel (keeps f) (evaluate_for_statement fuel).
+    Lemma keeps_for : mrel (keeps f) (evaluate_for_statement fuel nest).
     Proof. unfold evaluate_for_statement, expr; walk6. Qed.
 
     Lemma keeps_next_stmt : mrel (keeps f) evaluate_next_statement.
@@ -317,7 +332,7 @@ Section RuntimeFrame.
     Lemma keeps_def : mrel (keeps f) (evaluate_def_statement fuel).
     Proof. unfold evaluate_def_statement; walk6. Qed.
 
-    Lemma keeps_statement_body : mrel (keeps f) (evaluate_statement_body fuel rec).
+    Lemma keeps_statement_body : mrel (keeps f) (evaluate_statement_body fuel nest rec).
     Proof.
       unfold evaluate_statement_body;
       mrel_walk PO ltac:(
@@ -328,11 +343,12 @@ Section RuntimeFrame.
     Qed.
   End Stmt.
 
-  Lemma keeps_evaluate_statement fuel : mrel (keeps f) (evaluate_statement fuel).
+  Lemma keeps_evaluate_statement fuel : forall n, mrel (keeps f) (evaluate_statement fuel n).
   Proof.
-    induction fuel as [|n IH]; cbn [evaluate_statement].
+    induction fuel as [|k IH]; intros n; cbn [evaluate_statement].
     - apply (mrel_out_of_fuel _ PO).
-    - apply keeps_statement_body; exact IH.
+    - destruct (Nat.eqb n max_nesting); [apply (mrel_fail _ PO)|].
+      apply keeps_statement_body; apply IH.
   Qed.
 
   Lemma keeps_run_next_statement fuel : mrel (keeps f) (run_next_statement fuel).
